@@ -356,3 +356,65 @@ Theorem first_when_sequential c s n :
   cfg_ok c -> reachable c s -> workers c = 1 -> first s = Some n ->
   exists h1 h2, hist s = h1 ++ EFail n :: h2 /\ forall m, ~ In (EFail m) h2.
 Proof. intros Hc Hr W Hf. apply (seq_reachable c s Hc W Hr). left. exact Hf. Qed.
+
+(** * C. C10: run limits *)
+Lemma filter_len_le {A} (f : A -> bool) l : length (filter f l) <= length l.
+Proof. induction l as [|a l IH]; [reflexivity|]. cbn. destruct (f a); cbn; lia. Qed.
+
+Theorem inflight_le_workers c s : cfg_ok c -> reachable c s -> inflight s <= workers c.
+Proof.
+  intros Hc Hr. rewrite <- (i_len c s (inv_reachable c s Hc Hr)). unfold inflight. apply filter_len_le.
+Qed.
+
+(** potential: failures counted + failures about to be counted + calls that may still fail *)
+Definition fpot (s : st) : nat := errc s + csum isfail (ws s) + csum isrun (ws s).
+Definition failrun (pc : wpc) : nat := isfail pc + isrun pc.
+
+Lemma csum_plus f h l : csum (fun pc => f pc + h pc) l = csum f l + csum h l.
+Proof. induction l as [|a l IH]; [reflexivity|]. rewrite !csum_cons, IH. lia. Qed.
+
+Lemma step_fpot c s k s' kmax :
+  max_errors c = Some kmax -> Inv c s -> EInv c s -> next c s k = Some s' ->
+  fpot s <= kmax + workers c -> fpot s' <= kmax + workers c.
+Proof.
+  intros Hm I E H Hc. unfold fpot in *.
+  pose proof (e_stop_f _ _ E) as Hsf. pose proof (i_len _ _ I) as Hlen.
+  inv_next H; try spawn_case I; try split_ws; try split_q;
+    rewrite ?csum_mid in *; cbn [isfail isrun] in *; try lia.
+  (* KReadStop with stop = false starts a call: errc <= kmax, and the workers bound the rest *)
+  destruct (Hsf eq_refl) as [Hov _]. unfold over_max in Hov. rewrite Hm in Hov. apply Nat.ltb_ge in Hov.
+  rewrite app_length in Hlen. cbn [length] in Hlen.
+  assert (Hb : forall l, csum isfail l + csum isrun l <= length l).
+  { intros l. rewrite <- csum_plus. apply csum_le_length. intros [| | | | | |[|]|]; cbn; lia. }
+  pose proof (Hb l1). pose proof (Hb l2). lia.
+Qed.
+
+Lemma fpot_reachable c s kmax :
+  cfg_ok c -> max_errors c = Some kmax -> reachable c s -> fpot s <= kmax + workers c.
+Proof.
+  intros Hc Hm Hr. induction Hr as [|s k s' Hr IH Hn].
+  - unfold fpot. simpl_st. rewrite !csum_repeat_ns by reflexivity. lia.
+  - eapply step_fpot; eauto; [apply inv_reachable|apply einv_reachable]; auto.
+Qed.
+
+Theorem failures_bound c s k :
+  cfg_ok c -> reachable c s -> max_errors c = Some k -> nfail (hist s) <= k + workers c.
+Proof.
+  intros Hc Hr Hm. pose proof (fpot_reachable c s k Hc Hm Hr) as Hp. unfold fpot in Hp.
+  rewrite (failures_accounted c s Hc Hr). lia.
+Qed.
+
+Corollary single_worker_le c s k :
+  cfg_ok c -> reachable c s -> workers c = 1 -> max_errors c = Some k -> nfail (hist s) <= k + 1.
+Proof. intros Hc Hr W Hm. rewrite <- W. apply failures_bound; auto. Qed.
+
+(** no hidden serialisation: an idle worker can always dequeue any available item, and a worker holding a
+    node starts it as soon as it reads [stop = false], whatever the other workers are doing *)
+Theorem get_enabled_parallel c s w i it :
+  nth_error (ws s) w = Some WIdle -> nth_error (q s) i = Some it -> exists s', next c s (KGet w i) = Some s'.
+Proof. intros Hw Hq. unfold next. rewrite Hw, Hq. eauto. Qed.
+
+Theorem start_enabled c s w n :
+  nth_error (ws s) w = Some (WGot n) -> stop s = false ->
+  next c s (KReadStop w) = Some (add_ev (set_ws s w (WRun n)) (EStart n)).
+Proof. intros Hw Hs. unfold next. rewrite Hw, Hs. reflexivity. Qed.
